@@ -267,12 +267,40 @@ func ReuseInput(ex *Exec) {
 // OutputAccount.MergeOutputAccounts adds into the receiver's numbers in place, so a host that keeps a
 // returned account as its accumulator changes every number object the output holds. The output
 // belongs to the caller; nothing the library keeps may be reachable through it (C13).
-func ConsumeOutput(out *vmcommon.VMOutput) {
+func ConsumeOutput(out *vmcommon.VMOutput) string {
 	if out == nil {
-		return
+		return ""
+	}
+	// the host first takes a checkpoint of every output account with the library's own merge (into an
+	// empty account); the owner of the output then adds into its numbers and reuses its transfer list
+	// in place; the checkpoint must still say what it said
+	type cp struct {
+		acc  *vmcommon.OutputAccount
+		want string
+	}
+	render := func(a *vmcommon.OutputAccount) string {
+		s := fmt.Sprintf("%x:", a.Address)
+		for _, t := range a.OutputTransfers {
+			s += fmt.Sprintf("[%q gas=%d locked=%d ct=%d snd=%x]", t.Data, t.GasLimit, t.GasLocked, t.CallType, t.SenderAddress)
+		}
+		return s
+	}
+	var cps []cp
+	keys := make([]string, 0, len(out.OutputAccounts))
+	for k := range out.OutputAccounts {
+		keys = append(keys, k)
+	}
+	sort.Strings(keys)
+	for _, k := range keys {
+		if oa := out.OutputAccounts[k]; oa != nil {
+			c := &vmcommon.OutputAccount{}
+			c.MergeOutputAccounts(oa)
+			cps = append(cps, cp{c, render(c)})
+		}
 	}
 	bump := big.NewInt(1_000_000_007)
-	for _, oa := range out.OutputAccounts {
+	for _, k := range keys {
+		oa := out.OutputAccounts[k]
 		if oa == nil {
 			continue
 		}
@@ -287,7 +315,16 @@ func ConsumeOutput(out *vmcommon.VMOutput) {
 				v.Add(v, bump)
 			}
 		}
+		for i := range oa.OutputTransfers {
+			oa.OutputTransfers[i] = vmcommon.OutputTransfer{Data: []byte("reused")}
+		}
 	}
+	for _, c := range cps {
+		if got := render(c.acc); got != c.want {
+			return fmt.Sprintf("a checkpoint taken with MergeOutputAccounts said %s and says %s after the owner of the output reused its transfer list", c.want, got)
+		}
+	}
+	return ""
 }
 
 // FlattenTransfers lists output transfers in a canonical order (by destination address, then index).
